@@ -81,6 +81,18 @@ pub fn check_report(
         probe("c03_nonfinite_iterate");
         return v;
     }
+    // products of entries beyond 1e100 overflow in either party's arithmetic;
+    // "agreement to rounding" has no meaning there
+    let huge = snap
+        .x
+        .iter()
+        .chain(&snap.s)
+        .chain(&snap.z)
+        .fold(0.0f64, |m, a| m.max(a.abs()));
+    if huge > 1e100 {
+        probe("c03_overflow_range_iterate");
+        return v;
+    }
     let rec = recompute(prob, eff, &snap.x, &snap.s, &snap.z);
     if is_infeasible_status(snap.status) {
         if !(snap.obj_val.is_nan() && snap.obj_val_dual.is_nan()) {
@@ -130,7 +142,8 @@ pub fn check_report(
             ),
         ));
     }
-    let rp_ok = (snap.r_prim - rec.r_prim).abs() <= rec.r_prim_slack + REL * rec.r_prim + 1e-300;
+    let rp_ok = (snap.r_prim.is_nan() && rec.r_prim.is_nan())
+        || (snap.r_prim - rec.r_prim).abs() <= rec.r_prim_slack + REL * rec.r_prim + 1e-300;
     if !rp_ok {
         v.push(Violation::new(
             "C03.r_prim",
@@ -140,7 +153,8 @@ pub fn check_report(
             ),
         ));
     }
-    let rd_ok = (snap.r_dual - rec.r_dual).abs() <= rec.r_dual_slack + REL * rec.r_dual + 1e-300;
+    let rd_ok = (snap.r_dual.is_nan() && rec.r_dual.is_nan())
+        || (snap.r_dual - rec.r_dual).abs() <= rec.r_dual_slack + REL * rec.r_dual + 1e-300;
     if !rd_ok {
         v.push(Violation::new(
             "C03.r_dual",
